@@ -159,6 +159,27 @@ impl Report {
     /// Write evidence, print verdict lines, return the process exit code.
     pub fn finish(mut self) -> i32 {
         let root = verif_root();
+        // --- sanitizer lanes (run by tools/lanes.py before this process; see DESIGN section 7) ---
+        let mut lane_unmet: Vec<String> = vec![];
+        if let Some(v) = std::env::var("VERIF_LANES_JSON").ok().and_then(|p| std::fs::read_to_string(p).ok()).and_then(|s| serde_json::from_str::<Value>(&s).ok()) {
+            let lanes = v.get("lanes").and_then(|l| l.as_array().cloned()).unwrap_or_default();
+            for l in &lanes {
+                let (tool, lane, status) = (l["tool"].as_str().unwrap_or("?"), l["lane"].as_str().unwrap_or("?"), l["status"].as_str().unwrap_or("?"));
+                self.acc.add(&format!("lane_{tool}_{lane}_evaluations"), l["evaluations"].as_u64().unwrap_or(0));
+                for r in l["reports"].as_array().cloned().unwrap_or_default() {
+                    let (kind, frame) = (r["kind"].as_str().unwrap_or("?"), r["frame"].as_str().unwrap_or("?"));
+                    match r["status"].as_str().unwrap_or(status) {
+                        "report" | "oracle" => self.acc.violation(format!("sanitizer:{tool}:{lane}:{}:{frame}", kind.chars().take(60).collect::<String>()), r["excerpt"].as_str().unwrap_or("").to_string(), json!({"cmd": r["cmd"], "tool": tool, "lane": lane})),
+                        _ => lane_unmet.push(format!("lane {tool}/{lane}: {kind}")),
+                    }
+                }
+                if status == "inconclusive" && !lane_unmet.iter().any(|u| u.contains(&format!("{tool}/{lane}"))) {
+                    lane_unmet.push(format!("lane {tool}/{lane} inconclusive"));
+                }
+            }
+            let brief: Vec<Value> = lanes.iter().map(|l| json!({"tool": l["tool"], "lane": l["lane"], "flags": l["flags"], "processes": l["processes"], "evaluations": l["evaluations"], "status": l["status"], "reports": l["reports"].as_array().map(|a| a.len()).unwrap_or(0), "wall_s": l["wall_s"], "counters": l["counters"]})).collect();
+            self.extra.insert("sanitizer_lanes".into(), json!(brief));
+        }
         // --- known findings ---
         let kf_path = root.join("known_findings.json");
         let known: Vec<(String, String, String)> = std::fs::read_to_string(&kf_path)
@@ -201,6 +222,7 @@ impl Report {
         if self.acc.get("harness_errors") > 0 {
             unmet.push(format!("harness_errors={}", self.acc.get("harness_errors")));
         }
+        unmet.extend(lane_unmet);
         // --- replay files ---
         let mut exit = 0;
         let mut replay_paths = vec![];
